@@ -13,7 +13,7 @@ var known = ev.Matcher[Case]{}
 
 const rule = "exhaustive: every directed FK graph with self loops over n tables (n<=3 quick, n<=4 thorough; 2^(n*n) graphs) x every assignment of tables to {kept, created, dropped} " +
 	"(edges among kept+dropped tables live in the current schema, edges among kept+created tables in the desired one, so kept tables gain FKs to created and lose FKs to dropped tables) " +
-	"x {MySQL, PostgreSQL} x plan mode {unset, in-place, deferred, dump}; sampled n=4 in quick; random: 5-8 tables with independent current/desired graphs (FKs added, dropped and kept between kept tables) and two-column FKs. " +
+	"x {MySQL, PostgreSQL} x plan mode {unset, in-place, deferred, dump} x FK naming {per edge: a re-pointed FK is drop+add; per table slot: the n-th FK of a kept table keeps its name when its parent is replaced => ModifyForeignKey}; sampled n=4 in quick; random: 5-8 tables with independent current/desired graphs (FKs added, dropped and kept between kept tables) and two-column FKs. " +
 	"Changes = DefaultDiff.SchemaDiff, plan = DefaultPlan.PlanChanges. Oracle: a reference catalogue replays the plan from its SQL text (CREATE TABLE ... REFERENCES, ADD CONSTRAINT, DROP FOREIGN KEY/CONSTRAINT, DROP TABLE) " +
 	"enforcing: referenced table exists when an FK is declared (self references allowed), a table is dropped only when no other table references it, nothing created/dropped twice, final catalogue == desired; PlanChanges terminates without error. " +
 	"non-trivial = >=1 FK edge in the change set; distinct key = (graph, assignment, dialect, mode)"
@@ -66,10 +66,26 @@ func assignments(n int) [][]int {
 	return out
 }
 
+// repointed reports whether slot naming makes some foreign key keep its name while changing its parent.
+func repointed(c Case) bool {
+	c.Names = 1
+	fn, tn := c.namer(c.FromE), c.namer(c.ToE)
+	to := map[string]int{}
+	for _, e := range c.ToE {
+		to[fmt.Sprint(e.From, tn(e, false))] = e.To
+	}
+	for _, e := range c.FromE {
+		if ref, ok := to[fmt.Sprint(e.From, fn(e, false))]; ok && ref != e.To {
+			return true
+		}
+	}
+	return false
+}
+
 func genRandom(t *rapid.T) Case {
 	n := rapid.IntRange(5, 8).Draw(t, "n")
 	c := Case{N: n, Dialect: rapid.SampledFrom([]string{"mysql", "postgres"}).Draw(t, "dialect"), Mode: rapid.IntRange(0, 3).Draw(t, "mode"),
-		Multi: rapid.Bool().Draw(t, "multi")}
+		Multi: rapid.Bool().Draw(t, "multi"), Names: rapid.IntRange(0, 1).Draw(t, "names")}
 	for i := 0; i < n; i++ {
 		c.Role = append(c.Role, rapid.SampledFrom([]int{kept, kept, created, dropped}).Draw(t, "role"))
 	}
@@ -92,8 +108,11 @@ func mkCheck(col *ev.Collector) func(Case) error {
 		_, err := checkCase(c)
 		sh, n := shape(c)
 		col.Class(c.Dialect + "/" + sh)
+		if c.Names == 1 && repointed(c) {
+			col.Class(c.Dialect + "/re-pointed-fk-keeps-its-name")
+		}
 		if n > 0 {
-			col.NonTrivial(fmt.Sprintf("%d|%v|%v|%v|%s|%d", c.N, c.Role, c.FromE, c.ToE, c.Dialect, c.Mode))
+			col.NonTrivial(fmt.Sprintf("%d|%v|%v|%v|%s|%d|%d", c.N, c.Role, c.FromE, c.ToE, c.Dialect, c.Mode, c.Names))
 		}
 		col.Sample(c.Dialect+"/"+sh, c)
 		return err
@@ -122,8 +141,17 @@ func TestCheck(t *testing.T) {
 						if !col.Mine(i) {
 							continue
 						}
-						if !ev.Each(col, "exhaustive", mkCase(n, mask, roles, d, mode), check, known) {
+						c := mkCase(n, mask, roles, d, mode)
+						if !ev.Each(col, "exhaustive", c, check, known) {
 							return
+						}
+						// the same case with slot-named foreign keys: a kept table's n-th FK keeps its name when it
+						// moves from a dropped parent to a created/kept one, so the differ reports ModifyForeignKey
+						if repointed(c) {
+							c.Names = 1
+							if !ev.Each(col, "exhaustive-slot-names", c, check, known) {
+								return
+							}
 						}
 					}
 				}
@@ -138,7 +166,9 @@ func TestCheck(t *testing.T) {
 			for i := range roles {
 				roles[i] = rapid.IntRange(0, 2).Draw(t, "role")
 			}
-			return mkCase(4, rapid.Uint32Range(0, 1<<16-1).Draw(t, "mask"), roles, rapid.SampledFrom([]string{"mysql", "postgres"}).Draw(t, "dialect"), rapid.IntRange(0, 3).Draw(t, "mode"))
+			c := mkCase(4, rapid.Uint32Range(0, 1<<16-1).Draw(t, "mask"), roles, rapid.SampledFrom([]string{"mysql", "postgres"}).Draw(t, "dialect"), rapid.IntRange(0, 3).Draw(t, "mode"))
+			c.Names = rapid.IntRange(0, 1).Draw(t, "names")
+			return c
 		}
 		if !ev.Rapid(t, col, "sampled-n4", col.N(20000, 1), gen4, check, known) {
 			return
